@@ -14,9 +14,9 @@ git apply /verif/seeded/$name/patch.diff || { echo "PATCH-DOES-NOT-APPLY"; res=b
 if [ $res = ok ]; then
   if go build ./... && go test -vet=off -count=1 ./... >/tmp/seedchk_$name.log 2>&1; then echo "suite-with-patch: PASS"; else echo "suite-with-patch: FAIL"; tail -5 /tmp/seedchk_$name.log; res=bad; fi
   cp /verif/seeded/$name/zz_seed_demo_test.go $pkg/
-  if go test -vet=off -count=1 -run 'TestSeedDemo' ./$pkg/ >/tmp/seedchk_$name.log 2>&1; then echo "demo-with-patch: PASS (unexpected)"; res=bad; else echo "demo-with-patch: FAIL (expected)"; fi
+  if go test -vet=off -count=1 -run 'Seed' ./$pkg/ >/tmp/seedchk_$name.log 2>&1; then echo "demo-with-patch: PASS (unexpected)"; res=bad; else echo "demo-with-patch: FAIL (expected)"; fi
   git apply -R /verif/seeded/$name/patch.diff
-  if go test -vet=off -count=1 -run 'TestSeedDemo' ./$pkg/ >/tmp/seedchk_$name.log 2>&1; then echo "demo-without-patch: PASS (expected)"; else echo "demo-without-patch: FAIL (unexpected)"; tail -5 /tmp/seedchk_$name.log; res=bad; fi
+  if go test -vet=off -count=1 -run 'Seed' ./$pkg/ >/tmp/seedchk_$name.log 2>&1; then echo "demo-without-patch: PASS (expected)"; else echo "demo-without-patch: FAIL (unexpected)"; tail -5 /tmp/seedchk_$name.log; res=bad; fi
 fi
 cd /; git -C /repo worktree remove --force $wt; rm -f /tmp/seedchk_$name.log
 echo "seedconfirm $name: $res"
